@@ -72,7 +72,36 @@ def reuse_sequence(c, rng, ver):
                     se.unwrap(w.value)
 
 
+def overlapping_reuse(c, rng, ver):
+    """one KeyBlock object unwraps (or loads) a block and then another whose optional blocks share ids with the first in another
+    order, with ids dropped and added: the second result must carry the second header - ids, data and order"""
+    bs, ksizes, ml = VERS[ver]
+    kbpk = rb(rng, rng.choice(ksizes))
+    ids = [i for i, _ in rand_blocks(rng, 5)]
+    first = [(i, rs(rng, rng.randrange(0, 6))) for i in rng.sample(ids, rng.randrange(2, 5))]
+    keep = rng.sample([i for i, _ in first], rng.randrange(1, len(first) + 1))
+    second = [(i, rs(rng, rng.randrange(0, 6))) for i in keep + [i for i in ids if i not in dict(first)][: rng.randrange(0, 3)]]
+    rng.shuffle(second)
+    if [i for i, _ in second if i in dict(first)] == [i for i, _ in first if i in dict(second)] and len(second) > 1:
+        second.reverse()
+    se = Session(c, kbpk, None)
+    for blocks in (first, second):
+        h = make_header(rng, ver, blocks)
+        key = rb(rng, rng.choice([8, 16, 24]))
+        kb = tr31.wrap(kbpk, h, key)
+        u = se.unwrap(kb)
+        if not u.ok:
+            c.fail(f"reused object rejects a genuine block: {u.exc!r}")
+        elif u.value != key or header_tuple(se.kb.header) != header_tuple(h):
+            c.fail(f"reused object: unwrapped header {header_tuple(se.kb.header)} differs from the wrapped one {header_tuple(h)}")
+
+
 def generate(rng, tier, seed):
+    for ver in "ABCD":
+        for _ in range(12 if tier == "quick" else 60):
+            c = Case(f"{ver}:reused-object:overlapping-blocks", {})
+            overlapping_reuse(c, rng, ver)
+            yield c
     from props.tr31util import boundary_cases
     for ver in "BD":
         for c, *_ in boundary_cases(rng, ver, tier):
